@@ -486,6 +486,19 @@ func genCluster(seed uint64, tier, variant string) any {
 				key := keyOf(r.IntN(len(ks)), "m."+uid(0))
 				c.Cmds = []CmdSpec{{Argv: []string{key, "v:" + key + ":" + uid(0)}}}
 			}
+			if mode == "replicas" && r.IntN(6) == 0 {
+				// a streamed batch on one slot: eligible keyed reads, and in half of them a command without a key that is
+				// not eligible (the whole batch must then go to the primary)
+				key := marker(keyOf(r.IntN(len(ks)), "k"+strconv.Itoa(r.IntN(3))), true)
+				c = CallSpec{Kind: "mstream"}
+				c.Cmds = append(c.Cmds, CmdSpec{Argv: []string{"VKTAG", key, uid(0), "s"}, Keys: 1, Flag: "ro"})
+				if r.IntN(2) == 0 {
+					c.Cmds = append(c.Cmds, CmdSpec{Argv: []string{"VTAG", uid(1), "s"}})
+				}
+				if r.IntN(2) == 0 {
+					c.Cmds = append(c.Cmds, CmdSpec{Argv: []string{"VKTAG", key, uid(2), "s"}, Keys: 1, Flag: "ro"})
+				}
+			}
 			if cl.Cancel && (c.Kind == "multi" || c.Kind == "do") && r.IntN(2) == 0 {
 				c.Cancel, c.CancelAfter = true, r.IntN(6)
 			}
@@ -1407,6 +1420,31 @@ func (ce *clusterEnv) judge() {
 		case "do", "multi", "cache", "mcache":
 		case "dedic":
 			ce.judgeDedicated(task, spec, rec, res, arrivals, faultFree && !ctxEnded)
+			return
+		case "mstream":
+			// C21 for a streamed batch (one connection for the whole batch): a command a replica received belongs to a
+			// batch for which SendToReplicas is true for EVERY command, the ones without a key included
+			all := true
+			for _, c := range spec.Cmds {
+				all = all && specPredicate(pred, c)
+			}
+			for i, c := range spec.Cmds {
+				uid, ok := uidOf(c.Argv)
+				if !ok {
+					continue
+				}
+				for _, a := range arrivals[uid] {
+					if a.ex.Role != "slave" || failoverBefore(ce.sim, a.ex.Step) || cl.ReplicaOnly {
+						continue
+					}
+					out.probe("streamed-batch-at-replica")
+					if !all {
+						out.violate("C21", "replica-without-opt-in", "task %d call %d cmd %d %q of a streamed batch reached replica %s although SendToReplicas(%s) is not true for every command of the batch", task, rec.Index, i, truncArgv(c.Argv), a.ex.Node, pred)
+					} else {
+						out.judged("streamed-batch-opted-in")
+					}
+				}
+			}
 			return
 		default:
 			ce.judgeHelper(task, spec, rec, res, faultFree && !ctxEnded)
